@@ -17,6 +17,7 @@
   generated data (`Generated.C13.formatterTotal`).
 -/
 import NemoVerif.Generated.C13
+import NemoVerif.Generated.C13Raise
 
 namespace NemoVerif.ErrWrap
 
@@ -115,5 +116,12 @@ def wrapCur := wrap Generated.C13.formatterTotal
 /-- the region in which the pinned formatter works -/
 def PositionOk (e : Exc) (lines : List String) : Prop :=
   (∃ i, e.line = .int i ∧ (pyIndex lines (i - 1)).isSome) ∧ (e.column = .missing ∨ ∃ c, e.column = .int c)
+
+/-! ### every raise site of the two parsers (static scan, `Generated.C13Raise.sites`) -/
+
+/-- the exception objects a raise site can produce: the site's class fixes what `isinstance` says; attributes (`line`, `column` - the
+    1.0 parser decorates its `Exception` with `.line`, lark sets both) and the text are arbitrary -/
+def excOfSite (s : Generated.C13Raise.Site) (line column : Attr) (str : String) : Exc :=
+  { cls := s.cls, isException := s.isException, isValueError := s.isValueError, line := line, column := column, str := str }
 
 end NemoVerif.ErrWrap
